@@ -6,6 +6,8 @@ import (
 	"flag"
 	"fmt"
 	"os"
+	"os/exec"
+	"runtime"
 	"strconv"
 
 	"verifmc/explore"
@@ -18,6 +20,8 @@ func main() {
 	replay := flag.String("replay", "", "replay artefact to re-execute")
 	verif := flag.String("verif", "/verif", "verif directory")
 	list := flag.Bool("list", false, "list registered properties and their build variant")
+	shard := flag.String("shard", "", "i/n: explore only this shard and dump the totals to -dump")
+	dump := flag.String("dump", "", "file to write shard totals to")
 	racepass := flag.Int("racepass", 0, "free-running pass: explore the property's race scenarios this many times (binary built with -race, VERIF_FREERUN=1)")
 	flag.Parse()
 	if *list {
@@ -100,6 +104,69 @@ func main() {
 		return
 	}
 	c := explore.NewCheck(p.ID, *tier, p.Level, seed, *verif)
+	if *shard != "" {
+		fmt.Sscanf(*shard, "%d/%d", &c.ShardI, &c.ShardN)
+		p.Run(c, thorough)
+		b, _ := json.Marshal(c.Total)
+		if err := os.WriteFile(*dump, b, 0o644); err != nil {
+			fmt.Println("INFRA:", err)
+			os.Exit(2)
+		}
+		stopProfile()
+		return
+	}
+	if p.Sharded && os.Getenv("VERIF_NOSHARD") == "" {
+		n := runtime.NumCPU()
+		type res struct {
+			st  *explore.Stats
+			err error
+			out []byte
+		}
+		ch := make(chan res, n)
+		for i := 0; i < n; i++ {
+			go func(i int) {
+				f := fmt.Sprintf("%s/build/shard_%s_%d.json", *verif, p.ID, i)
+				cmd := exec.Command(os.Args[0], "-prop", p.ID, "-tier", *tier, "-verif", *verif, "-shard", fmt.Sprintf("%d/%d", i, n), "-dump", f)
+				cmd.Env = append(os.Environ(), "GOMAXPROCS=1")
+				out, err := cmd.CombinedOutput()
+				if err != nil {
+					ch <- res{nil, fmt.Errorf("shard %d: %v", i, err), out}
+					return
+				}
+				b, err := os.ReadFile(f)
+				if err != nil {
+					ch <- res{nil, err, out}
+					return
+				}
+				os.Remove(f)
+				st := explore.NewStats("")
+				if err := json.Unmarshal(b, st); err != nil {
+					ch <- res{nil, err, out}
+					return
+				}
+				ch <- res{st, nil, out}
+			}(i)
+		}
+		for i := 0; i < n; i++ {
+			r := <-ch
+			if r.err != nil {
+				c.Gate(false, "shard process failed: %v: %s", r.err, lastBytes(r.out, 600))
+				continue
+			}
+			c.MergeRaw(r.st)
+		}
+		c.Merged = true
+		fmt.Printf("  merged %d shard processes: execs=%d states=%d transitions=%d outcomes=%d\n", n, c.Total.Execs, c.Total.States, c.Total.Transitions, len(c.Total.Outcomes))
+	}
 	p.Run(c, thorough)
-	os.Exit(c.Finish())
+	code := c.Finish()
+	stopProfile()
+	os.Exit(code)
+}
+
+func lastBytes(b []byte, n int) string {
+	if len(b) > n {
+		b = b[len(b)-n:]
+	}
+	return string(b)
 }
